@@ -61,6 +61,11 @@ func Null() *N            { return &N{K: KNull} }
 func Str(s string) *N     { return &N{K: KStr, S: s} }
 func Int(i int64) *N      { return &N{K: KInt, I: i} }
 func Flt(f float64) *N    { return &N{K: KFloat, F: f} }
+
+// IntRaw / FltRaw are numbers with the spelling to use in YAML input (010,
+// 0x1F, 1_000, 1e3 ...); JSON input and the expected side use the value.
+func IntRaw(text string, v int64) *N   { return &N{K: KInt, I: v, S: text} }
+func FltRaw(text string, f float64) *N { return &N{K: KFloat, F: f, S: text} }
 func Bool(b bool) *N      { return &N{K: KBool, B: b} }
 func Time(s string) *N    { return &N{K: KTime, S: s} }
 func Seq(items ...*N) *N  { return &N{K: KSeq, Items: items} }
@@ -258,8 +263,14 @@ func (n *N) yamlNode(o YAMLOpts, anchors map[*N]*yaml.Node) *yaml.Node {
 		y.Kind, y.Tag, y.Value = yaml.ScalarNode, "!!timestamp", n.S
 	case KInt:
 		y.Kind, y.Tag, y.Value = yaml.ScalarNode, "!!int", strconv.FormatInt(n.I, 10)
+		if n.S != "" {
+			y.Value = n.S
+		}
 	case KFloat:
 		y.Kind, y.Tag, y.Value = yaml.ScalarNode, "!!float", fmtFloat(n.F)
+		if n.S != "" {
+			y.Value = n.S
+		}
 	case KBool:
 		y.Kind, y.Tag, y.Value = yaml.ScalarNode, "!!bool", strconv.FormatBool(n.B)
 	case KSeq:
@@ -440,7 +451,13 @@ func fromYAMLNode(y *yaml.Node, depth int) (*N, error) {
 			if k.Tag == "!!merge" && v.K == KMap {
 				v.Merge = true // flattened by Match (the generator never makes merged and explicit keys collide)
 			}
-			n.Keys = append(n.Keys, k.Value)
+			key := k.Value
+			if t := k.ShortTag(); t != "!!str" && t != "!!merge" {
+				// a key that is not a string (unquoted 0x10, True, 1.0, ~ ...) is
+				// never equal to a string key: callers compare against strings
+				key = "<" + t + ">" + k.Value
+			}
+			n.Keys = append(n.Keys, key)
 			n.Vals = append(n.Vals, v)
 		}
 		return n, nil
